@@ -451,7 +451,9 @@ def describe(raw):
 
 # --------------------------------------------------------------------------- multiprotocol helpers (RFC 4760 / 4364 / 5575)
 
-def flowspec_nlri(dst=None, src=None, proto=None):
+def flowspec_nlri(dst=None, src=None, proto=None, extra=b""):
+    """extra: already encoded components of higher types (in ascending type order), e.g. packet length
+    (type 10) = 100: b'\\x0a\\x81\\x64'."""
     comp = b""
     if dst is not None:
         comp += b"\x01" + encode_prefix(dst)
@@ -459,6 +461,7 @@ def flowspec_nlri(dst=None, src=None, proto=None):
         comp += b"\x02" + encode_prefix(src)
     if proto is not None:
         comp += b"\x03" + bytes([0x81, proto])
+    comp += extra
     assert len(comp) < 240
     return bytes([len(comp)]) + comp
 
